@@ -258,6 +258,13 @@ func (g *gen) valueFor(decl []fdecl, f int, recovered bool, limit int) *value {
 		if crashy(v) {
 			g.tg["value:untyped-array"] = true
 		}
+		if v.kind == 'A' && g.r.Intn(3) == 0 {
+			// the same array, built by concat onto the empty prefix of an array stored in some field
+			if j, f, ok := g.storedArray(); ok {
+				v = &value{kind: 'K', n: j, f: f, arr: v.arr}
+				g.tg["value:concat-derived"] = true
+			}
+		}
 		return v
 	}
 }
@@ -270,6 +277,30 @@ func (g *gen) noRefs(id int) bool {
 		}
 	}
 	return true
+}
+
+// some field of some instance that holds an array (preferably a non-empty one: its type was cached by the check)
+func (g *gen) storedArray() (int, int, bool) {
+	ids := []int{}
+	for id := range g.e.insts {
+		ids = append(ids, id)
+	}
+	sortInts(ids)
+	type jf struct{ j, f int }
+	c := []jf{}
+	for _, id := range ids {
+		fv := g.e.symFields(id)
+		for f := 0; f < 7; f++ {
+			if strings.HasPrefix(fv[f], "A(") && (fv[f] != "A()" || g.r.Intn(4) == 0) {
+				c = append(c, jf{id, f})
+			}
+		}
+	}
+	if len(c) == 0 {
+		return 0, 0, false
+	}
+	x := c[g.r.Intn(len(c))]
+	return x.j, x.f, true
 }
 
 func (g *gen) fieldIdx() int {
@@ -372,6 +403,14 @@ func (g *gen) pick() *op {
 			}
 			o := &op{kind: 'C', s: s, id: g.nextID}
 			g.nextID++
+			switch g.r.Intn(7) {
+			case 0:
+				o.shape = 'a'
+				g.tg["ctor:alias"] = true
+			case 1:
+				o.shape = 'f'
+				g.tg["ctor:param"] = true
+			}
 			n := g.r.Intn(g.nf + 1)
 			for i := 0; i < n; i++ {
 				k := g.keyAny()
@@ -600,6 +639,11 @@ func fixedScenarios() []string {
 		"D 0 1 f0 b0 ; C 0 0 1 f0 I1 ; C 1 0 1 f0 I2 ; R 0 @1 ; R 0 I3 ; D 1 1 f0 b0 ; C 2 1 1 f0 I1 ; R 0 @2",
 		// self reference: the direct struct-typed field is the place-holder type, the pointer works by name
 		"D 0 2 f0 s0 f1 P s0 ; C 0 0 0 ; W h 0 f0 @0 ; W h 0 f1 &0 ; W h 0 f0 N",
+		// constructor through a variable / a function parameter holding the type: checked like the plain call
+		"D 0 2 f0 b0 f1 b2 ; Ca 0 0 1 f0 I1 ; Ca 1 0 1 f0 S1 ; Ca 2 0 1 f3 I1 ; Cf 3 0 1 f1 S1 ; Cf 4 0 1 f1 I1 ; Cf 5 0 1 f4 I1 ; W h 0 f0 S1 ; W h 3 f1 I1",
+		"D 0 1 f0 b0 ; D 1 1 f0 b2 ; Ca 0 1 1 f0 I1 ; Cf 1 0 1 f0 S1 ; Ca 2 1 1 f0 S1 ; Cf 3 0 1 f0 I1 ; Ca 4 2 0",
+		// concat onto the empty prefix of a stored (type-cached) array gives a plain array of the new elements
+		"D 0 2 f0 L b2 f1 L b0 ; C 0 0 2 f0 A1 S1 f1 A1 I1 ; W h 0 f0 K0.0 A2 I1 I2 ; W h 0 f1 K0.0 A2 I1 I2 ; W d 0 f0 K0.1 A1 S2 ; W x 0 f1 K0.1 A1 S2 ; W h 0 f0 K0.0 A0 ; C 1 0 1 f0 K0.1 A1 I5 ; W h 0 f0 K0.5 A1 S1 ; W h 0 f0 K7.0 A1 S1",
 		// redeclaration through every spelling, then instances made afterwards must follow the NEW definition
 		"D 0 1 f0 b0 ; C 0 0 1 f0 I1 ; Db 0 ; C 1 0 1 f0 I1 ; C 2 0 0 ; W h 2 f0 I1 ; J 0 3 0 1 f0 I1 ; M 1 4 0 1 f0 I1 ; W h 0 f0 I2",
 		"D 0 1 f0 b0 ; C 0 0 1 f0 I1 ; D 0 0 ; C 1 0 1 f0 I1 ; C 2 0 0 ; W d 2 f0 I1 ; J 1 3 0 1 f0 I1 ; W h 0 f0 I2",
